@@ -483,8 +483,15 @@ func ToQuantity(ctx *expr.Context, input system.Collection, args ...expr.Express
 			return system.Collection{result}, nil
 		}
 		res := strings.SplitN(string(value), " ", 2)
-		unit := strings.Trim(res[1], "'")
-		result := system.MustParseQuantity(res[0], unit)
+		// a string without a unit has the default unit
+		unit := DefaultQuantityUnit
+		if len(res) == 2 {
+			unit = strings.Trim(res[1], "'")
+		}
+		result, err := system.ParseQuantity(res[0], unit)
+		if err != nil {
+			return system.Collection{}, nil
+		}
 		return system.Collection{result}, nil
 	case system.Boolean:
 		if value {
